@@ -523,6 +523,7 @@ Definition scenarios : list scen := [
   S0 "thread_create" (ABT_thread_create_x y_plain) true;
   SM "thread_create_refill" (ABT_thread_create_x (mkY None page_stack false false None PBuiltin (Some "pool.size"))) true;
   S0 "thread_create_refill_mmap" (ABT_thread_create_x (mkY None page_stack false false None PBuiltin (Some "pool.size"))) true;
+  SM "thread_create_refill_leftover" (ABT_thread_create_x (mkY None page_stack false false None PBuiltin (Some "pool.size"))) true;
   S0 "thread_create_stacksize" (ABT_thread_create_x y_stack32k) true;
   S0 "thread_create_userstack" (ABT_thread_create_x y_plain) true;
   S0 "thread_create_cb" (ABT_thread_create_x (mkY None None true false None PBuiltin (Some "pool.size"))) true;
